@@ -32,7 +32,7 @@ def gen_cases(tier, seed):
     cases.append({"ident": [1, 2, 3, 4], "present": False, "ops": [{"name": "fast_scan"}]})
     cases.append({"ident": [1, 2, 3, 4], "nid": 5, "ops": [{"name": "fast_scan"}], "present": False})
     # services
-    replies = ["ok", "silence", "wrongcs"] + [f"err:{c}" for c in (1, 2, 255, rng.randrange(3, 255))]
+    replies = ["ok", "silence", "wrongcs", "sibling"] + [f"err:{c}" for c in (1, 2, 255, rng.randrange(3, 255))]
     for chunk in range(8 if tier == "quick" else 60):
         ops = []
         ident = [rng.getrandbits(32) for _ in range(4)]
